@@ -406,8 +406,13 @@ func Validate(k *Key) Validity {
 		if v := Validate(sk); v != Valid {
 			return v
 		}
-		// signature: string format, string blob (sk formats carry extra fields after the blob)
-		if _, err := sshwire.Decode(fs(sshwire.String, sshwire.String, sshwire.Rest), k.Cert.Signature); err != nil {
+		// signature: string format, string blob; the sk-* signature formats carry extra
+		// fields (flags, counter) after the blob, the others nothing
+		sv, err := sshwire.Decode(fs(sshwire.String, sshwire.String, sshwire.Rest), k.Cert.Signature)
+		if err != nil {
+			return Invalid
+		}
+		if f := string(sv[0].B); len(sv[2].B) > 0 && f != SKECDSA && f != SKED25519 && f != CertType(SKECDSA) && f != CertType(SKED25519) {
 			return Invalid
 		}
 	}
